@@ -81,7 +81,7 @@ def do_import(base='/tmp/seedwork', rename=None):
 def run(names):
     res_path = os.path.join(SEEDED, 'results.json')
     results = json.load(open(res_path)) if os.path.exists(res_path) else {}
-    dirs = sorted(d for d in glob.glob(os.path.join(SEEDED, '*')) if os.path.isdir(d))
+    dirs = sorted(d for d in glob.glob(os.path.join(SEEDED, 'C*')) if os.path.isdir(d))
     extra_props = [a[1:] for a in names if a.startswith('+')]
     names = [a for a in names if not a.startswith('+')]
     for d in dirs:
